@@ -38,9 +38,10 @@ def run(ctx):
         from concurrent.futures import ThreadPoolExecutor
         with ThreadPoolExecutor(max_workers=2) as ex:
             f1 = ex.submit(evalrun.tlc_items, ctx, "EvalGen", "index", ctx.tier, None, 4)
-            f2 = ex.submit(evalrun.tlc_items, ctx, "EvalGen", "index", ctx.tier, "EvalGen_asbuilt_index_%s.cfg" % ctx.tier, 2)
+            deviates = not evalrun.same_constants("EvalGen_asbuilt_index_%s.cfg" % ctx.tier, "EvalGen_index_%s.cfg" % ctx.tier)
+            f2 = ex.submit(evalrun.tlc_items, ctx, "EvalGen", "index", ctx.tier, "EvalGen_asbuilt_index_%s.cfg" % ctx.tier, 2) if deviates else None
             items = f1.result()[0]
-            asbuilt = f2.result()[0]
+            asbuilt = f2.result()[0] if f2 else []
         batches = evalrun.make_batches(items, 20)
         evals = 0
         for batch, res in zip(batches, pmap(_work, batches)):
